@@ -441,9 +441,14 @@ func c19Flush(st *c19State, lines []string, out []string) {
 	}
 }
 
+// c19CaseRunner is the exec runner of the case being run: one runner serves all its lookups, as the
+// one a ConfigFile holds does (a runner may not carry anything over from one lookup to the next).
+var c19CaseRunner ociauth.HelperRunner
+
 func (*c19) Impl(c Case) []string {
 	out := make([]string, len(c.Lines))
 	st := newC19State()
+	c19CaseRunner = ociauth.ExecHelperWithEnv([]string{"PATH=/usr/bin:/bin"})
 	for i, l := range c.Lines {
 		t := strings.Split(l, " ")
 		if len(t) < 2 || t[0] != "authfile" {
@@ -585,7 +590,10 @@ func c19Exec(t []string) string {
 	old := os.Getenv("PATH")
 	os.Setenv("PATH", dir)
 	defer os.Setenv("PATH", old)
-	e, err := ociauth.ExecHelperWithEnv([]string{"PATH=/usr/bin:/bin"})(name, host)
+	if c19CaseRunner == nil {
+		c19CaseRunner = ociauth.ExecHelperWithEnv([]string{"PATH=/usr/bin:/bin"})
+	}
+	e, err := c19CaseRunner(name, host)
 	if err != nil {
 		if errors.Is(err, ociauth.ErrHelperNotFound) {
 			return "missing"
@@ -1455,6 +1463,14 @@ func (*c19) Gen(rng *RNG, tier string) []Case {
 		cases = append(cases, Case{Tag: "exec", Lines: []string{"authfile exec " + tok("store") + " " + tok("h.example") + " " + doneLine(o)}})
 	}
 	cases = append(cases, Case{Tag: "exec", Lines: []string{"authfile exec x73 x68 missing", "authfile exec x73 x68 noexec", "authfile exec x73 " + tok("g.example:5000") + " echo", "authfile exec x73 x echo"}})
+	// one runner, several lookups: each outcome followed by each other one
+	seqOuts := []string{"fail 1 " + tok("credentials not found in native keychain"), "fail 2 " + tok("boom"), doneLine(`{"Username":"u","Secret":"p"}`), doneLine("not json"), "missing", "echo"}
+	for _, a := range seqOuts {
+		for _, b := range seqOuts {
+			pre := "authfile exec " + tok("store") + " " + tok("h.example") + " "
+			cases = append(cases, Case{Tag: "exec-seq", Lines: []string{pre + a, pre + b, pre + a}})
+		}
+	}
 	for i := 0; i < 15*scale; i++ {
 		var ls []string
 		for j := 1 + rng.Intn(4); j > 0; j-- {
